@@ -3,7 +3,14 @@
 import os, json, subprocess, shutil
 import vlib, histplan
 
-KEYS_Q = ["SO2_d", "SE2_d", "SO3_d", "SE3_d", "SE_2_3_d", "SGal3_d", "R3_d", "SE3_f", "SGal3_f"]
+KEYS_Q = ["SO2_d", "SE2_d", "SO3_d", "SE3_d", "SE_2_3_d", "SGal3_d", "R3_d", "SE3_f", "SGal3_f", "B_SE2.R3.SO3_d", "B_SGal3.SO2_d"]
+def key_defs(k):
+    """(-D definitions, extra flags) of a recorder for group key k; keys B_<elem>.<elem>..._d are bundle layouts"""
+    if k.startswith("B_"):
+        from . import c11
+        lay = k[2:].rsplit("_", 1)[0].split(".")
+        return ["REC_GROUP=" + c11.bundle_type(lay), 'REC_KEY="%s"' % k], ["-include", os.path.join(vlib.HARN, "rec_bundle.h")]
+    return ["REC_GROUP=" + vlib.key_type(k), 'REC_KEY="%s"' % k], []
 KEYS_T = KEYS_Q + ["SO2_f", "SE2_f", "SO3_f", "SE_2_3_f", "R3_f"]
 
 def _killpg(p):
@@ -54,8 +61,9 @@ def run(prop, tier, seed, variants, rule, assumptions):
     jobs = []
     for suffix, defs, comp, flags in variants:
         for k in keys:
+            kd, kf = key_defs(k)
             jobs.append(dict(tag="rec_hist_%s%s" % (k, suffix), src="rec_hist.cpp", compiler=comp,
-                             defs=["REC_GROUP=" + vlib.key_type(k), 'REC_KEY="%s"' % k] + defs, flags=["-std=c++14"] + flags))
+                             defs=kd + defs, flags=["-std=c++14"] + kf + flags))
     res = vlib.build_many(jobs)
     bad = {t: l for t, (p, l) in res.items() if p is None}
     if bad:
@@ -106,7 +114,7 @@ def run(prop, tier, seed, variants, rule, assumptions):
     rep.cells = set()
     for r in results:
         h = json.loads(r["ev"])
-        if h["e"] == "step": rep.cells.add((h["g"]["k"], h["sc"], h["op"], h["dst"][0], h["a"][0], h["b"][0], h["mask"]))
+        if h["e"] == "step": rep.cells.add((json.dumps(h["g"]), h["sc"], h["op"], h["dst"][0], h["a"][0], h["b"][0], h["mask"]))
     rep.extra["behaviours_replayed"] = len(traces)
     rep.samples = [{"behaviour": [{k: s[k] for k in ("op", "dst", "a", "b", "mask", "res")} for s in sims[0][:6]]}]
     return rep.finish(rule)
